@@ -446,6 +446,8 @@ PPL::Grid::relation_with(const Congruence& cg) const {
   PPL_DIRTY_TEMP_COEFFICIENT(sp);
 
   bool known_to_intersect = false;
+  // In a non-minimized system parameters may precede the first point.
+  bool parameter_fails = false;
 
   for (Grid_Generator_System::const_iterator i = gen_sys.begin(),
          i_end = gen_sys.end(); i != i_end; ++i) {
@@ -461,6 +463,11 @@ PPL::Grid::relation_with(const Congruence& cg) const {
       if (sp == 0) {
         // The point satisfies the congruence.
         if (point_sp == 0) {
+          if (parameter_fails) {
+            // The point satisfies cg, its sum with a previously
+            // considered parameter does not.
+            return Poly_Con_Relation::strictly_intersects();
+          }
           // Any previous points satisfied the congruence.
           known_to_intersect = true;
         }
@@ -476,6 +483,11 @@ PPL::Grid::relation_with(const Congruence& cg) const {
           // Assign `sp' to `point_sp' as `sp' is the scalar product
           // of cg and a point g and is non-zero.
           point_sp = sp;
+          if (div != 0 && point_sp % div == 0) {
+            // Previously considered parameters lead from this point
+            // to a grid point satisfying cg.
+            return Poly_Con_Relation::strictly_intersects();
+          }
         }
         else {
           // A previously considered point p failed to satisfy cg such that
@@ -511,6 +523,7 @@ PPL::Grid::relation_with(const Congruence& cg) const {
         // a point and the parameter g fails to satisfy cg (due to g).
         return Poly_Con_Relation::strictly_intersects();
       }
+      parameter_fails = true;
       // Find the GCD between sp and the previous GCD.
       gcd_assign(div, div, sp);
       if (point_sp != 0) {
